@@ -1,10 +1,10 @@
 package main
 
 import (
-	"strconv"
-	"go/token"
 	"fmt"
+	"go/token"
 	"go/types"
+	"strconv"
 	"strings"
 
 	"golang.org/x/tools/go/ssa"
